@@ -7,10 +7,14 @@
    - the parent link of every item is the scope whose list holds it, and parents precede their children,
    - no two sibling scopes share a name,
    - within every list the variables appear in the order in which they were added, and so do the scopes.
-   NOT proved: the pre-order walk function itself (its fuel argument), full_name, lookup_*; the signal-reference
-   table.  Those are decided by the correspondence run against the rose-tree oracle (MANIFEST level_note). *)
+   hierarchy_walk (Proofs/NavProofs.v): the pre-order walk from the top-level items through each scope's items
+   terminates within the fuel of the model and visits every variable and every scope exactly once; full_name of
+   every scope and variable is defined (the parent chain is strictly decreasing).
+   NOT proved: that full_name is the '.'-join of the ancestors' names in the walk's sense, lookup_*, the
+   signal-reference table.  Those are decided by the correspondence run against the rose-tree oracle (MANIFEST
+   level_note). *)
 From Coq Require Import Permutation.
-From WV Require Import Model.Base Model.Bits Model.WaveMem Model.Hierarchy Proofs.HierProofs.
+From WV Require Import Model.Base Model.Bits Model.WaveMem Model.Hierarchy Proofs.HierProofs Proofs.NavProofs.
 
 Check hierarchy_wellformed :
   forall ops b, balanced 0 ops -> hier_run hb_new ops = Ok b ->
@@ -36,7 +40,14 @@ Check add_var_inv :
   (forall i, option_map sc_name (nth_error (hb_scopes b') i) = option_map sc_name (nth_error (hb_scopes b) i)) /\
   stack_scopes (hb_stack b') = stack_scopes (hb_stack b) /\ length (hb_stack b') = length (hb_stack b).
 
+Check hierarchy_walk :
+  forall ops b, balanced 0 ops -> hier_run hb_new ops = Ok b ->
+  (exists w, full_walk b = Ok w /\ Permutation (map snd w) (all_ids b) /\ NoDup (map snd w)) /\
+  (forall s, (s < length (hb_scopes b))%nat -> exists nm, scope_full_name (items_fuel b) b s = Ok nm) /\
+  (forall v, (v < length (hb_vars b))%nat -> exists nm, var_full_name b v = Ok nm).
+
 Print Assumptions hierarchy_wellformed.
+Print Assumptions hierarchy_walk.
 Print Assumptions add_var_inv.
 Print Assumptions add_scope_inv.
 Print Assumptions pop_scope_inv.
